@@ -93,8 +93,10 @@ Definition force_duration (d : Z) (dummy : bool) (u : N) (l : list item) : list 
     if dummy && (duration l1 <? d) then l1 ++ [dummy_item u d] else l1.
 
 (* ---- Fragment (per-cue cutting, then Order) ---------------------------------------------- *)
-(* first multiple of f strictly greater than s, for 0 <= s, 0 < f *)
-Definition next_mult (f s : Z) : Z := (s / f + 1) * f.
+(* first multiple of f strictly greater than s (0 < f); Go's % truncates toward zero: Z.rem *)
+Definition next_mult (f s : Z) : Z :=
+  let b := s - Z.rem s f in
+  if b <=? s then b + f else b.
 (* pieces of [s,e) cut at b, b+f, ... while < e; fuel bounds the number of cuts.
    Every piece but the last is a copy (fresh identity: uid 0), the last piece is the original
    pointer with its StartAt moved. *)
@@ -105,7 +107,7 @@ Fixpoint pieces_loop (fuel : nat) (f : Z) (x : item) (b : Z) : list item :=
            else [x]
   end.
 Definition pieces (f : Z) (x : item) : list item :=
-  pieces_loop (Z.to_nat ((en x - st x) / f + 1)) f x (next_mult f (st x)).
+  pieces_loop (Z.to_nat ((en x - st x) / f + 2)) f x (next_mult f (st x)).
 Definition fragment (f : Z) (l : list item) : list item :=
   if f <=? 0 then l else order (flat_map (pieces f) l).
 
